@@ -176,7 +176,7 @@ theorem memVariant_lt (a b s : BitVec 32) : memVariant a b s < 3 := by
   · split <;> omega
 
 /-- the facts of `memHead_facts` for bit-vector arguments -/
-theorem memHead_facts' (opReg7 rb7 : BitVec 32) (v : Nat) (ho : opReg7 < 8#32) (hr : rb7 < 8#32) (hv : v < 3) (h5 : v = 0 → rb7 ≠ 5#32) :
+theorem memHead_factsBV (opReg7 rb7 : BitVec 32) (v : Nat) (ho : opReg7 < 8#32) (hr : rb7 < 8#32) (hv : v < 3) (h5 : v = 0 → rb7 ≠ 5#32) :
     bits (memHead opReg7 rb7 v).1 6 2 = v ∧ (bits (memHead opReg7 rb7 v).1 0 3 == 4) = (memHead opReg7 rb7 v).2.isSome ∧
     bits (memHead opReg7 rb7 v).1 3 3 = opReg7.toNat ∧
     dispLen (memHead opReg7 rb7 v).1 (memHead opReg7 rb7 v).2 = (if v = 0 then 0 else if v = 1 then 1 else 4) ∧
@@ -238,7 +238,7 @@ theorem vexM_rvm_formOk_evex (c : Model.X86.Ctx) (ctx : Spec.X86.Ctx) (rule : Ru
     unfold memVariant at h0
     simp [h5] at h0
     split at h0 <;> omega
-  obtain ⟨fmod, fsib, freg, flen, fbase⟩ := memHead_facts' _ _ _ ho7 hr7 hvlt hv5
+  obtain ⟨fmod, fsib, freg, flen, fbase⟩ := memHead_factsBV _ _ _ ho7 hr7 hvlt hv5
   have hmd := memDisp_decoded (rb &&& 7#32) (d.truncate 32) s hs6
   simp only [] at hmd
   generalize hvdef : memVariant (rb &&& 7#32) (d.truncate 32) s = v at *
